@@ -477,6 +477,12 @@ def method_call(self, recv, name, pos, kw, node, fr, star=None, dstar=None):
     if name == 'append' and ra is not None and ra.kind == 'list' and len(pos) == 1 and self.class_of(recv) is None:
         self._rebind(node.func.value, T.mk_tuple(list(ra.args) + [pos[0]], 'list'), fr)
         return NONE
+    if name == 'setdefault' and len(pos) in (1, 2) and not kw and self.class_of(recv) is None:
+        # d.setdefault(k, v)  ==  (d[k] = v  unless k in d);  value d[k]
+        k_, v_ = pos[0], (pos[1] if len(pos) == 2 else NONE)
+        newv = T.mk_ite(T.mk_in(k_, recv), recv, T.mk_store(recv, k_, v_))
+        self._rebind(node.func.value, newv, fr)
+        return self.subscript(newv, k_)
     if name in MUTATING_METHODS and self.class_of(recv) is None:
         # model list growth / dict update on the container expression
         newv = T.mk_call('mut.' + name, [recv] + pos, kw)
